@@ -17,6 +17,12 @@ in relative mode, where the pinned tree is right); Henry constants in own units 
 pressure representation and every unit of the molar and mass loading tables; misses that a control experiment attributes to the scale of the stored
 loading numbers alone are the known finding S45-C15a); psd_dft: what is handed to the kernel fit (1e-9) and what the fit returns (1e-6; misses with
 agreeing fit inputs are the known finding S46-C15b); isosteric enthalpy of sets in a common representation AND of mixed sets (every isotherm in its own representation).
+Adsorbate KINDS (round 7): besides the shipped adsorbates with a working backend, three user-defined kinds registered under fresh names and passed by name - no backend (every
+constant a constructor literal), a backend that cannot answer at the isotherm's temperature (literal fall-back after a backend error), own name on a working backend - run through
+the same oracles: their synthetic isotherms are STORED in absolute mode in any unit (pressure column from the literal p0, not from the adsorbate) and take part in the invariance /
+history / homogeneity loop of every routine, alpha-s with a reference in relative mode, the model-isotherm oracle (generating constants come back: absolute, no second library run
+as reference), Henry constants in own units, isosteric enthalpy (also: the enthalpy of a van 't Hoff set IS the generating enthalpy) and the Model/Access correspondence (context
+line = the literals).  The SI oracle of these adsorbates (`direct`, unit-factor predictions) is built from the literals (c01.Props known=), never from the adsorbate's accessors.
 """
 import json
 import math
@@ -61,7 +67,8 @@ def run(ck):
         d.update(over)
         return pg.PointIsotherm(isotherm_data=iso.data_raw.copy(), pressure_key=iso.pressure_key, loading_key=iso.loading_key, **d)
 
-    def synthetic(kind, T=77.355, ads="N2"):
+    def shape(kind):
+        """(relative pressures, loadings in mmol/g) of the two synthetic isotherms"""
         n = 70
         rel = np.concatenate([np.geomspace(1e-7, 1e-2, 25), np.linspace(0.012, 0.97, n - 25)])
         if kind == "micro":
@@ -71,6 +78,10 @@ def run(ck):
             bet = nm * c * rel / ((1 - 0.8 * rel) * (1 - 0.8 * rel + c * rel))
             step = 9.0 / (1 + np.exp(-(rel - 0.42) / 0.025))
             load = bet + step
+        return rel, load
+
+    def synthetic(kind, T=77.355, ads="N2"):
+        rel, load = shape(kind)
         p0 = pg.Adsorbate.find(ads).saturation_pressure(T, unit="bar")
         return pg.PointIsotherm(pressure=rel * p0, loading=load, material={"name": "pgv-synth-" + kind, "density": 1.7, "molar_mass": 120.0}, adsorbate=ads, temperature=T,
                                 pressure_mode="absolute", pressure_unit="bar", loading_basis="molar", loading_unit="mmol", material_basis="mass", material_unit="g", temperature_unit="K")
@@ -85,6 +96,68 @@ def run(ck):
         except Exception as e:  # noqa
             ck.count(("measured-missing", fn), nontrivial=False, bucket="measured isotherm not loadable")
     isos = {"synthetic micro": synthetic("micro"), "synthetic meso": synthetic("meso"), **measured}
+
+    # ------------------------------------------------------------------ adsorbate KINDS.  The property quantifies over isotherms, not over the shipped adsorbate list: an
+    # adsorbate described by the user (every constant a literal of the constructor, registered under a fresh name, referred to BY NAME) takes other paths through
+    # core/adsorbate.py than a shipped one with a working thermodynamic backend - the stored-literal fall-back of every property function.  Three kinds besides the shipped ones:
+    #   no backend          - no `backend_name` at all: every property is the stored literal
+    #   backend cannot answer - a backend exists but fails at the isotherm's temperature (nitrogen above its critical point): literal fall-back after a backend error
+    #   own name, backend   - a fresh name on a working backend (constants from the backend, nothing stored)
+    # The literals differ from every shipped adsorbate's constants (p0 is neither 1 bar nor 1 atm: a unit factor that is dropped cannot hide).  The SI oracle (`props_of`)
+    # takes the LITERALS (c01.Props `known=`), no property accessor of the adsorbate is involved in what `direct()` constructs or in the predicted unit factors.
+    tagu = f"pgv-c15-{rng.randrange(10**6):06d}"
+    mm_u = round(rng.uniform(24.0, 46.0), 3)
+    ld_u, gd_u = round(rng.uniform(0.6, 1.3), 4), round(rng.uniform(0.002, 0.009), 5)
+    LIT = dict(formula="X2", molar_mass=mm_u, saturation_pressure=round(rng.uniform(6.1e4, 9.3e4), 1), cross_sectional_area=round(rng.uniform(0.13, 0.2), 3),
+               liquid_density=ld_u, liquid_molar_density=ld_u / mm_u, gas_density=gd_u, gas_molar_density=gd_u / mm_u, surface_tension=round(rng.uniform(7.0, 12.0), 2),
+               molecular_diameter=0.31, polarizability=1.8e-3, magnetic_susceptibility=3.4e-8, surface_density=6.5e18, enthalpy_liquefaction=5.6)
+    KNOWN = {}          # adsorbate name -> constants the oracle uses (absent: the adsorbate's own accessors, as for the shipped ones)
+    UKINDS = {}         # kind -> (adsorbate name, temperature)
+    mm_n2 = float(pg.Adsorbate.find("N2").molar_mass())
+    HK_LIT = {k: LIT[k] for k in ("formula", "cross_sectional_area", "molecular_diameter", "polarizability", "magnetic_susceptibility", "surface_density")}
+    # (the molar mass is answered by a backend at any temperature - it is the other constants that fall back on the literals above the critical point -, so the
+    #  adsorbate on the nitrogen backend is given nitrogen's molar mass as its literal: both sources agree, as for a user who describes a fluid the backend knows)
+    LIT_N2 = {**LIT, "molar_mass": mm_n2, "liquid_molar_density": ld_u / mm_n2, "gas_molar_density": gd_u / mm_n2}
+    for kind_, kw_, T_, lit_ in (("no backend", {}, 77.355, LIT), ("backend cannot answer", {"backend_name": "nitrogen"}, 150.0, LIT_N2), ("own name, backend", {"backend_name": "nitrogen"}, 77.355, None)):
+        nm_ = f"{tagu}-{len(UKINDS)}"
+        try:
+            pg.Adsorbate(nm_, store=True, **kw_, **(lit_ if lit_ is not None else {**HK_LIT, "molar_mass": mm_n2}))
+        except Exception as e:  # noqa
+            ck.fail_case({"routine": "Adsorbate", "clause": "a user-defined adsorbate is refused", "adsorbate_kind": kind_, "error": type(e).__name__}, {"error": repr(e)[:300]})
+            continue
+        if lit_ is not None:
+            KNOWN[nm_] = {"psat": lit_["saturation_pressure"], **{k: lit_[k] for k in c01.QORDER}}
+        UKINDS[kind_] = (nm_, T_)
+
+    def synthetic_user(kind, ukind, unit):
+        """the synthetic isotherm of a user-defined adsorbate, STORED in absolute mode in `unit`; the pressure column comes from the literal p0 (oracle tables), not from the adsorbate"""
+        nm_, T_ = UKINDS[ukind]
+        P = c01.Props(nm_, pg.Adsorbate.find(nm_), None, T_, pg, known=KNOWN.get(nm_))
+        rel, load = shape(kind)
+        return pg.PointIsotherm(pressure=rel * float(P.psat / c01.PA[unit]), loading=load, material={"name": "pgv-synth-" + kind, "density": 1.7, "molar_mass": 120.0},
+                                adsorbate=nm_, temperature=T_, pressure_mode="absolute", pressure_unit=unit, loading_basis="molar", loading_unit="mmol", material_basis="mass", material_unit="g", temperature_unit="K")
+
+    USER_ISOS = {}      # isotherm name -> adsorbate kind
+
+    def udetail(iname):
+        """what is needed to rebuild the adsorbate of a user-defined kind (part of every failing input)"""
+        if iname not in USER_ISOS:
+            return {}
+        i_ = isos[iname]
+        return {"adsorbate": str(i_.adsorbate), "adsorbate_kind": USER_ISOS[iname], "adsorbate_properties": dict(i_.adsorbate.properties), "temperature": float(i_.temperature),
+                "came_as": [i_.pressure_mode, i_.pressure_unit, i_.loading_basis, i_.loading_unit]}
+    for ukind in UKINDS:
+        for kind in ("micro", "meso"):
+            if ukind == "own name, backend" and kind == "meso" and not thorough:
+                continue
+            # stored in absolute mode in any unit; 'Pa' (the unit the constants are kept in) for one isotherm in four
+            unit = "Pa" if rng.random() < 0.25 else rng.choice([u for u in P_UNITS if u != "Pa"])
+            try:
+                iname_ = f"synthetic {kind} [adsorbate: {ukind}]"
+                isos[iname_] = synthetic_user(kind, ukind, unit)
+                USER_ISOS[iname_] = ukind
+            except Exception as e:  # noqa
+                ck.fail_case({"routine": "constructor", "clause": "an isotherm of a user-defined adsorbate is refused", "adsorbate_kind": ukind, "error": type(e).__name__}, {"unit": unit, "error": repr(e)[:300]})
 
     def convert_random(iso):
         """a clone in another representation (ONE conversion of each kind from the representation the isotherm came in)"""
@@ -121,7 +194,7 @@ def run(ck):
         """independent SI content of the isotherm's units (tables of c01.py, CoolProp constants as common inputs)"""
         key = (str(iso.adsorbate), round(float(iso.temperature), 9))
         if key not in PROPS:
-            PROPS[key] = c01.Props(key[0], pg.Adsorbate.find(key[0]), None, key[1], pg)
+            PROPS[key] = c01.Props(key[0], pg.Adsorbate.find(key[0]), None, key[1], pg, known=KNOWN.get(key[0]))
         return PROPS[key]
 
     def p_factor(iso, prep):
@@ -357,8 +430,16 @@ def run(ck):
     for iname, iso in isos.items():
         for rname, (fn, ext, inten, tol) in ROUTINES.items():
             nconv, nhist = NCONV, NHIST
+            ukind = USER_ISOS.get(iname)
+            if ukind is not None:
+                # isotherms of user-defined adsorbates: fewer conversions per routine in the quick tier (three kinds x two shapes), histories preferred (they pass through every mode)
+                nconv, nhist = (ck.n(1, 3), ck.n(3, 6))
+                if rname == "alpha_s self":
+                    # known finding S15a: the reference is looked up at p/p0 taken as a pressure in the sample's unit, so already the call on the isotherm AS IT CAME leaves the
+                    # reference's range unless p0 is about 1 in that unit (the shipped N2 in bar).  alpha-s of these adsorbates: section "reference in relative mode" below
+                    continue
             if rname in ONLY_ON:
-                if not thorough and iname not in ONLY_ON[rname][0]:
+                if not thorough and iname.split(" [")[0] not in ONLY_ON[rname][0]:
                     continue
                 nconv, nhist = (1, ONLY_ON[rname][1]) if not thorough else (2, 4)
             dft_fits[0] = DFT_FITS.get(iname, 0)
@@ -388,6 +469,10 @@ def run(ck):
                     continue
                 sig = {"routine": rname}
                 detail = {"isotherm": iname, "representation": desc}
+                if ukind is not None:
+                    sig["adsorbate_kind"] = "user-defined: " + ukind
+                    detail.update(adsorbate=str(iso.adsorbate), adsorbate_properties={k: v for k, v in iso.adsorbate.properties.items()}, temperature=float(iso.temperature),
+                                  came_as=[iso.pressure_mode, iso.pressure_unit, iso.loading_basis, iso.loading_unit])
                 if two_step:
                     sig["history"] = "stored first in one representation, then converted"
                     detail["stored_as"] = [conv.pressure_mode, conv.pressure_unit, conv.loading_basis, conv.loading_unit]
@@ -466,10 +551,12 @@ def run(ck):
     # up correctly: `loading_at(p/p0)` without a mode falls back to the reference's own mode, S15a does not apply): sample after any history, reference after any history
     # that ends in relative mode (reached from absolute, from relative% or constructed in it; any loading representation; export -> import)
     ALPHA_KEYS = ["results[0].area", "results[0].adsorbed_volume", "results[0].slope", "alpha_curve", "results[0].corr_coef"]
-    for iname in ("synthetic meso", "MCM-41", "synthetic micro"):
-        if iname not in isos or "SiO2" not in isos:
+    # (user-defined adsorbates: the micropore sample against the mesopore isotherm of the SAME adsorbate as reference)
+    ALPHA_PAIRS = [(i_, "SiO2") for i_ in ("synthetic meso", "MCM-41", "synthetic micro")] + [(f"synthetic micro [adsorbate: {k_}]", f"synthetic meso [adsorbate: {k_}]") for k_ in UKINDS]
+    for iname, refname in ALPHA_PAIRS:
+        if iname not in isos or refname not in isos:
             continue
-        ref = direct(isos["SiO2"], ("relative", None))
+        ref = direct(isos[refname], ("relative", None))
         # the sample restricted to the pressure range the reference was measured in (outside it the reference cannot be looked up: not a matter of units)
         rmin, rmax = float(np.min(ref.data_raw[ref.pressure_key])) * 1.02, float(np.max(ref.data_raw[ref.pressure_key])) * 0.98
         relp = isos[iname].data_raw[isos[iname].pressure_key] * p_factor(isos[iname], ("relative", None))
@@ -483,17 +570,17 @@ def run(ck):
         except Exception as e:  # noqa
             ck.fail_case({"routine": rname, "clause": "routine raises a non-pyGAPS error", "error": type(e).__name__}, {"isotherm": iname, "error": repr(e)[:300]})
             continue
-        for j in range(ck.n(6, 16)):
+        for j in range(ck.n(6, 16) if iname not in USER_ISOS else ck.n(4, 8)):
             h1, h2 = history(rname + "/sample"), history(rname + "/reference", final_p=("relative", None))
-            detail = {"isotherm": iname, "sample": hdesc(h1), "reference": hdesc(h2)}
+            detail = {"isotherm": iname, "reference_isotherm": refname, "sample": hdesc(h1), "reference": hdesc(h2), **udetail(iname)}
             ck.count(("alphas-relref", iname, json.dumps(detail, sort_keys=True, default=str)), bucket="invariance after a history:" + rname)
             try:
-                conv, rconv = build(iso, h1), build(isos["SiO2"], h2)
+                conv, rconv = build(iso, h1), build(isos[refname], h2)
                 other = flat("", pgc.alpha_s(conv, reference_isotherm=rconv, reference_area="BET", t_limits=(0.3, 1.2)), {})
             except Exception as e:  # noqa
                 ck.fail_case({"routine": rname, "clause": "routine fails on the converted isotherms", "error": type(e).__name__}, {**detail, "error": repr(e)[:300]})
                 continue
-            compare(rname, base, other, ALPHA_KEYS, 1e-6, {"routine": rname, "reference_mode": "relative"}, detail, what="history (representation)")
+            compare(rname, base, other, ALPHA_KEYS, 1e-6, {"routine": rname, "reference_mode": "relative", **({"adsorbate_kind": "user-defined: " + USER_ISOS[iname]} if iname in USER_ISOS else {})}, detail, what="history (representation)")
 
     # ------------------------------------------------------------------ simple_bet / simple_lang: the model isotherms behind the two area methods.  An isotherm generated from
     # them, stored in any representation, gives the generating constants back (C14 `bet_recovers_parameters`), n_m and area times k for k n_m (`simple_bet_homogeneous`)
@@ -501,8 +588,15 @@ def run(ck):
     from pygaps.characterisation.area_lang import simple_lang
     p0bar = float(pg.Adsorbate.find("N2").saturation_pressure(77.355, unit="bar"))
     relg = np.linspace(0.02, 0.6, 40)
-    for j in range(ck.n(3, 10)):
+    # the adsorbate of the model isotherm: the shipped N2 (stored in bar) or one of the user-defined kinds (stored in any absolute unit, pressures from the literal p0);
+    # the generating constants must come back whatever the adsorbate: an ABSOLUTE oracle (no second run of the library is the reference)
+    MODEL_ADS = [("N2", 77.355, "bar", p0bar)]
+    for k_, (nm_, T_) in UKINDS.items():
+        for u_ in rng.sample(P_UNITS, 2):
+            MODEL_ADS.append((nm_, T_, u_, float(c01.Props(nm_, pg.Adsorbate.find(nm_), None, T_, pg, known=KNOWN.get(nm_)).psat / c01.PA[u_])))
+    for j in range(ck.n(3, 10) + len(MODEL_ADS) - 1):
         nm, cc, k = rng.uniform(0.5, 8.0), math.exp(rng.uniform(math.log(20), math.log(400))), rng.choice([0.001, 0.5, 3.0, 1000.0])
+        ads_m, T_m, unit_m, p0_m = MODEL_ADS[j % len(MODEL_ADS)]
         for meth, gen, run_, keyc in (("simple_bet", simple_bet, lambda i: pgc.area_BET(i, p_limits=(0.045, 0.355)), "c_const"),
                                       ("simple_lang", simple_lang, lambda i: pgc.area_langmuir(i, p_limits=(0.045, 0.605)), "langmuir_const")):
             ck.count((meth, j), bucket="model isotherm behind the method:" + meth)
@@ -511,9 +605,10 @@ def run(ck):
                 e = float(np.max(np.abs(lk - k * l1) / np.abs(k * l1)))
                 if not e <= 1e-12:
                     ck.fail_case({"routine": meth, "clause": "model loading is not homogeneous in the monolayer capacity"}, {"n_monolayer": nm, "constant": cc, "scale": k, "relative_difference": e})
-                b0 = pg.PointIsotherm(pressure=relg * p0bar, loading=l1, material={"name": "pgv-synth-model", "density": 1.7, "molar_mass": 120.0}, adsorbate="N2", temperature=77.355,
-                                      pressure_mode="absolute", pressure_unit="bar", loading_basis="molar", loading_unit="mmol", material_basis="mass", material_unit="g", temperature_unit="K")
-                hist = history(meth)
+                b0 = pg.PointIsotherm(pressure=relg * p0_m, loading=l1, material={"name": "pgv-synth-model", "density": 1.7, "molar_mass": 120.0}, adsorbate=ads_m, temperature=T_m,
+                                      pressure_mode="absolute", pressure_unit=unit_m, loading_basis="molar", loading_unit="mmol", material_basis="mass", material_unit="g", temperature_unit="K")
+                # as constructed (first visit of an adsorbate: no conversion at all between the literal table and the routine) or after a history
+                hist = history(meth) if j >= len(MODEL_ADS) or ads_m == "N2" else (None, [])
                 res = run_(build(b0, hist))
                 got = (float(res["n_monolayer"]), float(res[keyc]))
                 for nmq, (g, w) in zip(("n_monolayer", keyc), zip(got, (nm * 1e-3, cc))):   # (the monolayer capacity is reported in mol per unit of material)
@@ -521,7 +616,8 @@ def run(ck):
                     note(f"{meth}:{nmq}", e)
                     if e > 1e-6:
                         ck.fail_case({"routine": meth, "clause": "analysis of the model isotherm stored in another representation does not return its constants", "quantity": nmq},
-                                     {"n_monolayer": nm, "constant": cc, "history": hdesc(hist), "got": g, "expected": w})
+                                     {"n_monolayer": nm, "constant": cc, "adsorbate": ads_m, "temperature": T_m, "constructed_in": ["absolute", unit_m, "molar", "mmol"], "saturation_pressure_in_that_unit": p0_m,
+                                      "adsorbate_properties": dict(pg.Adsorbate.find(ads_m).properties), "history": hdesc(hist), "got": g, "expected": w})
             except Exception as e:  # noqa
                 ck.fail_case({"routine": meth, "clause": "routine fails on a model isotherm", "error": type(e).__name__}, {"n_monolayer": nm, "constant": cc, "error": repr(e)[:300]})
 
@@ -574,7 +670,7 @@ def run(ck):
         else:
             ck.fail_case({**sig, "clause": HENRY_CLAUSE, "cured_by_rescaling": cured}, {**detail, "got": k1, "expected": want, "relative_difference": relerr(k1, want), "control": control})
 
-    for iname in ("synthetic micro", "Takeda"):
+    for iname in ("synthetic micro", "Takeda", *[i_ for i_, k_ in USER_ISOS.items() if i_.startswith("synthetic micro") and (thorough or k_ == "no backend")]):
         if iname not in isos:
             continue
         iso = isos[iname]
@@ -587,13 +683,13 @@ def run(ck):
                 ck.count(("henry-base", iname, meth), nontrivial=False, bucket="henry base refused: " + type(e).__name__)
                 continue
             if not meth.endswith("limits"):
-                for j in range(NCONV):
+                for j in range(NCONV if iname not in USER_ISOS else ck.n(2, 6)):
                     pu, lu = rng.choice(["bar", "kPa", "atm", "torr", "mbar"]), rng.choice(["mmol", "mol", "kmol"])
                     c = clone(iso)
                     c.convert(pressure_unit=pu, loading_unit=lu)
                     ck.count(("henry", iname, meth, pu, lu), bucket="own units:" + meth)
-                    want = k0 * (lf["mmol"] / lf[lu]) / (pf["bar"] / pf[pu])
-                    henry_case(meth, fn, c, want, 2e-3, {}, {"isotherm": iname, "units": [pu, lu], "base": k0}, meth)
+                    want = k0 * (lf[iso.loading_unit] / lf[lu]) / (pf[iso.pressure_unit] / pf[pu])
+                    henry_case(meth, fn, c, want, 2e-3, {}, {"isotherm": iname, "units": [pu, lu], "base": k0, **udetail(iname)}, meth)
             # after a history, in EVERY pressure representation (relative modes: the constant is per unit of p/p0 resp. per %), molar and mass loadings:
             # the expected factor comes from the independent SI tables and depends on the final representation only
             # (the slope method refits after dropping one row at a time: its histories run on the first 25 points)
@@ -603,7 +699,7 @@ def run(ck):
             except Exception as e:  # noqa
                 ck.count(("henry-base", iname, meth, "head"), nontrivial=False, bucket="henry base refused: " + type(e).__name__)
                 continue
-            for j in range(ck.n(5, 14)):
+            for j in range(ck.n(5, 14) if iname not in USER_ISOS else ck.n(3, 8)):
                 hist = history(meth, table=HENRY_LOAD)
                 d = hdesc(hist)
                 ck.count(("henry-hist", iname, meth, json.dumps(d, sort_keys=True, default=str)), bucket="own units after a history:" + meth)
@@ -615,126 +711,141 @@ def run(ck):
                     continue
                 # (virial fit: the optimiser ends on one of a few plateaus, worst 9.0e-4 over 140 representations of the two isotherms on the pinned tree)
                 henry_case(meth, lambda i, fp=fp: fn(i, fp), c, k0 * fl / fp, 4e-3 if "virial" in meth else 2e-3, {"history": "stored first in one representation, then converted"},
-                           {"isotherm": iname, "history": d, "stored_as": [c.pressure_mode, c.pressure_unit, c.loading_basis, c.loading_unit], "base": k0, "pressure_factor": fp, "loading_factor": fl},
+                           {"isotherm": iname, "history": d, "stored_as": [c.pressure_mode, c.pressure_unit, c.loading_basis, c.loading_unit], "base": k0, "pressure_factor": fp, "loading_factor": fl, **udetail(iname)},
                            meth + " (history)")
 
     # ------------------------------------------------------------------ isosteric enthalpy: all isotherms in any common representation
     R = 6.02214076e23 * 1.380649e-23
+    ENTH_ABS_TOL = 1e-6   # (measured on the unchanged tree: < 1e-9 - the interpolation error of p at a given loading is the same factor at the three temperatures and drops out of the slope)
     dH, K0, nm = 22.0, 3e-9, 5.0
     Ts = [240.0, 260.0, 285.0]
-    pts = []
-    for T in Ts:
-        K = K0 * math.exp(dH * 1000 / (R * T))
-        grid = np.geomspace(1e-3 / K, 200 / K, 300) / 1e5
-        ld = nm * (K * 1e5) * grid / (1 + (K * 1e5) * grid)
-        pts.append(pg.PointIsotherm(pressure=grid, loading=ld, material={"name": "pgv-synth", "density": 1.7, "molar_mass": 120.0}, adsorbate="CO2", temperature=T, pressure_mode="absolute", pressure_unit="bar",
-                                    loading_basis="molar", loading_unit="mmol", material_basis="mass", material_unit="g", temperature_unit="K"))
-    lp = [0.5, 1.5, 3.0]
-    try:
-        base_h = np.asarray(pgc.isosteric_enthalpy(pts, loading_points=lp)["isosteric_enthalpy"], dtype=float)
-    except Exception as e:  # noqa
-        base_h = None
-        ck.fail_case({"routine": "isosteric_enthalpy", "clause": "routine raises", "error": type(e).__name__}, {"error": repr(e)[:300]})
-    if base_h is not None:
-        for j in range(NCONV * 3):
-            mode = rng.choice(["unit", "unit", "relative", "relative%"])
-            pu, lu, mu = rng.choice(P_UNITS), rng.choice(["mmol", "mol", "cm3(STP)"]), rng.choice(["g", "kg", "mg"])
-            cs = [clone(p) for p in pts]
-            desc = {"mode": mode, "pressure_unit": pu if mode == "unit" else None, "loading_unit": lu, "material_unit": mu}
-            ck.count(("isosteric", json.dumps(desc)), bucket="invariance:isosteric_enthalpy:" + ("absolute" if mode == "unit" else mode))
-            try:
-                for c in cs:
-                    if mode == "unit":
-                        c.convert_pressure(unit_to=pu)
-                    else:
-                        c.convert_pressure(mode_to=mode)
-                    c.convert_loading(unit_to=lu)
-                scale_l = float(cs[0].loading()[5] / pts[0].loading()[5])
-                got = np.asarray(pgc.isosteric_enthalpy(cs, loading_points=[x * scale_l for x in lp])["isosteric_enthalpy"], dtype=float)
-            except (CalculationError, ParameterError) as e:
-                ck.fail_case({"routine": "isosteric_enthalpy", "clause": "routine refuses the converted isotherms", "pressure_mode": "absolute" if mode == "unit" else "relative"}, {"representation": desc, "error": str(e)[:300]})
-                continue
-            except Exception as e:  # noqa
-                ck.fail_case({"routine": "isosteric_enthalpy", "clause": "routine raises a non-pyGAPS error on the converted isotherms", "error": type(e).__name__}, {"representation": desc, "error": repr(e)[:300]})
-                continue
-            e = float(np.max(np.abs(got - base_h) / np.abs(base_h)))
-            note("isosteric_enthalpy:" + ("absolute" if mode == "unit" else "relative"), e)
-            if not (e <= 1e-4):
-                ck.fail_case({"routine": "isosteric_enthalpy", "clause": "result changes with the representation of the isotherm", "pressure_mode": "absolute" if mode == "unit" else "relative"},
-                             {"representation": desc, "before": base_h.tolist(), "after": got.tolist(), "relative_difference": e})
-        # MIXED sets: every isotherm of the set after its own history (own pressure mode / unit, own loading unit; the routine demands one loading BASIS for the
-        # set - molar or mass, the volume bases depend on the temperature through the densities and would change the meaning of "equal loading").
-        # A factor common to all isotherms drops out of the slope of ln p against 1/T; a wrong factor on ONE isotherm does not.
-        for j in range(ck.n(10, 30)):
-            basis = rng.choice(["molar", "mass"])
-            hs = [history("isosteric_enthalpy", table={basis: LOAD[basis]}) for _ in pts]
-            desc = [hdesc(h) for h in hs]
-            ck.count(("isosteric-mixed", json.dumps(desc, sort_keys=True, default=str)), bucket="invariance after a history:isosteric_enthalpy:mixed set")
-            try:
-                cs = [build(p, h) for p, h in zip(pts, hs)]
-                fl = l_factor(pts[0], (cs[0].loading_basis, cs[0].loading_unit))
-                got = np.asarray(pgc.isosteric_enthalpy(cs, loading_points=[x * fl for x in lp])["isosteric_enthalpy"], dtype=float)
-            except Exception as e:  # noqa
-                ck.fail_case({"routine": "isosteric_enthalpy", "clause": "routine fails on a set of isotherms stored in different representations", "error": type(e).__name__}, {"histories": desc, "error": repr(e)[:300]})
-                continue
-            e = float(np.max(np.abs(got - base_h) / np.abs(base_h)))
-            note("isosteric_enthalpy:mixed set", e)
-            if not (e <= 1e-4):
-                ck.fail_case({"routine": "isosteric_enthalpy", "clause": "result changes with the representation of the isotherm", "history": "every isotherm of the set stored in its own representation"},
-                             {"histories": desc, "stored_as": [[c.pressure_mode, c.pressure_unit, c.loading_basis, c.loading_unit] for c in cs], "before": base_h.tolist(), "after": got.tolist(), "relative_difference": e})
-        # objects that have already been interpolated, then converted IN PLACE (only some of them, unit only), then analysed again
-        for j in range(NCONV * 2):
-            cs = [clone(p) for p in pts]
-            try:
-                warm = np.asarray(pgc.isosteric_enthalpy(cs, loading_points=lp)["isosteric_enthalpy"], dtype=float)
-                which = rng.sample(range(len(cs)), rng.randint(1, len(cs) - 1))
-                pu = rng.choice([u for u in P_UNITS if u != "bar"])
-                for w_ in which:
-                    cs[w_].convert_pressure(unit_to=pu)
-                got = np.asarray(pgc.isosteric_enthalpy(cs, loading_points=lp)["isosteric_enthalpy"], dtype=float)
-            except Exception as e:  # noqa
-                ck.fail_case({"routine": "isosteric_enthalpy", "clause": "routine raises after an in-place conversion", "error": type(e).__name__}, {"error": repr(e)[:300]})
-                continue
-            ck.count(("isosteric-inplace", tuple(which), pu), bucket="invariance:isosteric_enthalpy:in-place conversion of used objects")
-            e = float(np.max(np.abs(got - base_h) / np.abs(base_h)))
-            if not (e <= 1e-4) or not np.allclose(warm, base_h, rtol=1e-9):
-                ck.fail_case({"routine": "isosteric_enthalpy", "clause": "result changes with the representation of the isotherm", "history": "interpolated, converted in place, analysed again"},
-                             {"converted": which, "unit": pu, "before": base_h.tolist(), "after": got.tolist(), "relative_difference": e})
-        # ... and converted in place to another MODE (any ordered pair of modes), some of them, after the interpolators were built
-        for j in range(ck.n(6, 16)):
-            cs = [clone(p) for p in pts]
-            try:
-                pgc.isosteric_enthalpy(cs, loading_points=lp)
-                which = rng.sample(range(len(cs)), rng.randint(1, len(cs)))
-                chain = []
-                if rng.random() < 0.3:
-                    # the whole set to another loading basis, in place (the routine demands a common basis); analysed at the same physical loadings
+    # the set is measured with the shipped CO2 (stored in bar) and with a user-defined adsorbate without backend (stored in another absolute unit; its literal p0 is the same
+    # at the three temperatures, which the routine need not know: it regresses ln p of ABSOLUTE pressures; the relative modes of the histories go through the literal)
+    ENTH_ADS = [("CO2", "bar", "")] + [(UKINDS[k_][0], rng.choice([u for u in P_UNITS if u != "bar"]), " [adsorbate: " + k_ + "]") for k_ in ("no backend",) if k_ in UKINDS]
+    for ads_h, unit_h, tag_h in ENTH_ADS:
+        quick_user = bool(tag_h) and not thorough
+        sig_h = {"adsorbate_kind": "user-defined:" + tag_h} if tag_h else {}
+        udet_h = {"adsorbate": ads_h, "adsorbate_properties": dict(pg.Adsorbate.find(ads_h).properties), "came_as": ["absolute", unit_h, "molar", "mmol"], "temperatures": Ts} if tag_h else {}
+        pts = []
+        for T in Ts:
+            K = K0 * math.exp(dH * 1000 / (R * T))
+            grid = np.geomspace(1e-3 / K, 200 / K, 300) / 1e5
+            ld = nm * (K * 1e5) * grid / (1 + (K * 1e5) * grid)
+            pts.append(pg.PointIsotherm(pressure=grid * float(c01.PA["bar"] / c01.PA[unit_h]), loading=ld, material={"name": "pgv-synth", "density": 1.7, "molar_mass": 120.0}, adsorbate=ads_h, temperature=T, pressure_mode="absolute", pressure_unit=unit_h,
+                                        loading_basis="molar", loading_unit="mmol", material_basis="mass", material_unit="g", temperature_unit="K"))
+        lp = [0.5, 1.5, 3.0]
+        try:
+            base_h = np.asarray(pgc.isosteric_enthalpy(pts, loading_points=lp)["isosteric_enthalpy"], dtype=float)
+        except Exception as e:  # noqa
+            base_h = None
+            ck.fail_case({**sig_h, "routine": "isosteric_enthalpy", "clause": "routine raises", "error": type(e).__name__}, {"error": repr(e)[:300], **udet_h})
+        if base_h is not None:
+            # absolute oracle: the three isotherms are Langmuir isotherms whose constant follows van 't Hoff with dH, so the isosteric enthalpy IS dH at every loading,
+            # in whatever unit the set is stored (error of the routine's linear interpolation on 300 points per isotherm, measured on the unchanged tree: see `worst`)
+            e = float(np.max(np.abs(base_h - dH)) / dH)
+            note("isosteric_enthalpy:generating enthalpy" + tag_h, e)
+            ck.count(("isosteric-abs", ads_h, unit_h), bucket="isosteric enthalpy of a van 't Hoff set is the generating enthalpy" + tag_h)
+            if not (e <= ENTH_ABS_TOL):
+                ck.fail_case({"routine": "isosteric_enthalpy", "clause": "enthalpy of a set generated with a known enthalpy is not returned", **sig_h}, {"stored_in": ["absolute", unit_h, "molar", "mmol"], "expected": dH, "got": base_h.tolist(), **udet_h})
+            for j in range(NCONV * 3 if not quick_user else ck.n(4, 12)):
+                mode = rng.choice(["unit", "unit", "relative", "relative%"])
+                pu, lu, mu = rng.choice(P_UNITS), rng.choice(["mmol", "mol", "cm3(STP)"]), rng.choice(["g", "kg", "mg"])
+                cs = [clone(p) for p in pts]
+                desc = {"mode": mode, "pressure_unit": pu if mode == "unit" else None, "loading_unit": lu, "material_unit": mu}
+                ck.count(("isosteric" + tag_h, json.dumps(desc)), bucket="invariance:isosteric_enthalpy:" + ("absolute" if mode == "unit" else mode) + tag_h)
+                try:
                     for c in cs:
-                        c.convert_loading(basis_to="mass", unit_to="mg")
-                    chain.append("all: mass / mg")
-                for w_ in which:
-                    a, b = P_TRANS[(j + w_) % len(P_TRANS)]
-                    st = [("P",) + p_rep(a), ("P",) + p_rep(b)]
-                    if rng.random() < 0.5:
-                        # ... and the loading unit of this isotherm only (same basis)
-                        st.insert(rng.randrange(3), ("L", cs[w_].loading_basis, rng.choice([u for u in LOAD[cs[w_].loading_basis] if u != cs[w_].loading_unit])))
-                    chain.append(st)
-                    apply_steps(cs[w_], st[:1])
-                    if rng.random() < 0.5:
-                        fl = l_factor(pts[0], (cs[0].loading_basis, cs[0].loading_unit))
-                        pgc.isosteric_enthalpy(cs, loading_points=[x * fl for x in lp])
-                    apply_steps(cs[w_], st[1:])
-                fl = l_factor(pts[0], (cs[0].loading_basis, cs[0].loading_unit))
-                got = np.asarray(pgc.isosteric_enthalpy(cs, loading_points=[x * fl for x in lp])["isosteric_enthalpy"], dtype=float)
-            except Exception as e:  # noqa
-                ck.fail_case({"routine": "isosteric_enthalpy", "clause": "routine raises after an in-place conversion", "error": type(e).__name__}, {"error": repr(e)[:300]})
-                continue
-            ck.count(("isosteric-inplace-mode", tuple(which), json.dumps(chain)), bucket="invariance after a history:isosteric_enthalpy:in-place mode conversions of used objects")
-            e = float(np.max(np.abs(got - base_h) / np.abs(base_h)))
-            note("isosteric_enthalpy:in-place modes", e)
-            if not (e <= 1e-4):
-                ck.fail_case({"routine": "isosteric_enthalpy", "clause": "result changes with the representation of the isotherm", "history": "interpolated, converted in place (mode / loading unit), analysed again"},
-                             {"converted": which, "conversions": chain, "before": base_h.tolist(), "after": got.tolist(), "relative_difference": e})
+                        if mode == "unit":
+                            c.convert_pressure(unit_to=pu)
+                        else:
+                            c.convert_pressure(mode_to=mode)
+                        c.convert_loading(unit_to=lu)
+                    scale_l = float(cs[0].loading()[5] / pts[0].loading()[5])
+                    got = np.asarray(pgc.isosteric_enthalpy(cs, loading_points=[x * scale_l for x in lp])["isosteric_enthalpy"], dtype=float)
+                except (CalculationError, ParameterError) as e:
+                    ck.fail_case({**sig_h, "routine": "isosteric_enthalpy", "clause": "routine refuses the converted isotherms", "pressure_mode": "absolute" if mode == "unit" else "relative"}, {"representation": desc, "error": str(e)[:300], **udet_h})
+                    continue
+                except Exception as e:  # noqa
+                    ck.fail_case({**sig_h, "routine": "isosteric_enthalpy", "clause": "routine raises a non-pyGAPS error on the converted isotherms", "error": type(e).__name__}, {"representation": desc, "error": repr(e)[:300], **udet_h})
+                    continue
+                e = float(np.max(np.abs(got - base_h) / np.abs(base_h)))
+                note("isosteric_enthalpy:" + ("absolute" if mode == "unit" else "relative"), e)
+                if not (e <= 1e-4):
+                    ck.fail_case({**sig_h, "routine": "isosteric_enthalpy", "clause": "result changes with the representation of the isotherm", "pressure_mode": "absolute" if mode == "unit" else "relative"},
+                                 {"representation": desc, "before": base_h.tolist(), "after": got.tolist(), "relative_difference": e, **udet_h})
+            # MIXED sets: every isotherm of the set after its own history (own pressure mode / unit, own loading unit; the routine demands one loading BASIS for the
+            # set - molar or mass, the volume bases depend on the temperature through the densities and would change the meaning of "equal loading").
+            # A factor common to all isotherms drops out of the slope of ln p against 1/T; a wrong factor on ONE isotherm does not.
+            for j in range(ck.n(10, 30) if not quick_user else ck.n(6, 30)):
+                basis = rng.choice(["molar", "mass"])
+                hs = [history("isosteric_enthalpy", table={basis: LOAD[basis]}) for _ in pts]
+                desc = [hdesc(h) for h in hs]
+                ck.count(("isosteric-mixed" + tag_h, json.dumps(desc, sort_keys=True, default=str)), bucket="invariance after a history:isosteric_enthalpy:mixed set" + tag_h)
+                try:
+                    cs = [build(p, h) for p, h in zip(pts, hs)]
+                    fl = l_factor(pts[0], (cs[0].loading_basis, cs[0].loading_unit))
+                    got = np.asarray(pgc.isosteric_enthalpy(cs, loading_points=[x * fl for x in lp])["isosteric_enthalpy"], dtype=float)
+                except Exception as e:  # noqa
+                    ck.fail_case({**sig_h, "routine": "isosteric_enthalpy", "clause": "routine fails on a set of isotherms stored in different representations", "error": type(e).__name__}, {"histories": desc, "error": repr(e)[:300], **udet_h})
+                    continue
+                e = float(np.max(np.abs(got - base_h) / np.abs(base_h)))
+                note("isosteric_enthalpy:mixed set", e)
+                if not (e <= 1e-4):
+                    ck.fail_case({**sig_h, "routine": "isosteric_enthalpy", "clause": "result changes with the representation of the isotherm", "history": "every isotherm of the set stored in its own representation"},
+                                 {"histories": desc, "stored_as": [[c.pressure_mode, c.pressure_unit, c.loading_basis, c.loading_unit] for c in cs], "before": base_h.tolist(), "after": got.tolist(), "relative_difference": e, **udet_h})
+            # objects that have already been interpolated, then converted IN PLACE (only some of them, unit only), then analysed again
+            for j in range(NCONV * 2 if not quick_user else ck.n(3, 20)):
+                cs = [clone(p) for p in pts]
+                try:
+                    warm = np.asarray(pgc.isosteric_enthalpy(cs, loading_points=lp)["isosteric_enthalpy"], dtype=float)
+                    which = rng.sample(range(len(cs)), rng.randint(1, len(cs) - 1))
+                    pu = rng.choice([u for u in P_UNITS if u != unit_h])
+                    for w_ in which:
+                        cs[w_].convert_pressure(unit_to=pu)
+                    got = np.asarray(pgc.isosteric_enthalpy(cs, loading_points=lp)["isosteric_enthalpy"], dtype=float)
+                except Exception as e:  # noqa
+                    ck.fail_case({**sig_h, "routine": "isosteric_enthalpy", "clause": "routine raises after an in-place conversion", "error": type(e).__name__}, {"error": repr(e)[:300], **udet_h})
+                    continue
+                ck.count(("isosteric-inplace" + tag_h, tuple(which), pu), bucket="invariance:isosteric_enthalpy:in-place conversion of used objects" + tag_h)
+                e = float(np.max(np.abs(got - base_h) / np.abs(base_h)))
+                if not (e <= 1e-4) or not np.allclose(warm, base_h, rtol=1e-9):
+                    ck.fail_case({**sig_h, "routine": "isosteric_enthalpy", "clause": "result changes with the representation of the isotherm", "history": "interpolated, converted in place, analysed again"},
+                                 {"converted": which, "unit": pu, "before": base_h.tolist(), "after": got.tolist(), "relative_difference": e, **udet_h})
+            # ... and converted in place to another MODE (any ordered pair of modes), some of them, after the interpolators were built
+            for j in range(ck.n(6, 16) if not quick_user else ck.n(3, 16)):
+                cs = [clone(p) for p in pts]
+                try:
+                    pgc.isosteric_enthalpy(cs, loading_points=lp)
+                    which = rng.sample(range(len(cs)), rng.randint(1, len(cs)))
+                    chain = []
+                    if rng.random() < 0.3:
+                        # the whole set to another loading basis, in place (the routine demands a common basis); analysed at the same physical loadings
+                        for c in cs:
+                            c.convert_loading(basis_to="mass", unit_to="mg")
+                        chain.append("all: mass / mg")
+                    for w_ in which:
+                        a, b = P_TRANS[(j + w_) % len(P_TRANS)]
+                        st = [("P",) + p_rep(a), ("P",) + p_rep(b)]
+                        if rng.random() < 0.5:
+                            # ... and the loading unit of this isotherm only (same basis)
+                            st.insert(rng.randrange(3), ("L", cs[w_].loading_basis, rng.choice([u for u in LOAD[cs[w_].loading_basis] if u != cs[w_].loading_unit])))
+                        chain.append(st)
+                        apply_steps(cs[w_], st[:1])
+                        if rng.random() < 0.5:
+                            fl = l_factor(pts[0], (cs[0].loading_basis, cs[0].loading_unit))
+                            pgc.isosteric_enthalpy(cs, loading_points=[x * fl for x in lp])
+                        apply_steps(cs[w_], st[1:])
+                    fl = l_factor(pts[0], (cs[0].loading_basis, cs[0].loading_unit))
+                    got = np.asarray(pgc.isosteric_enthalpy(cs, loading_points=[x * fl for x in lp])["isosteric_enthalpy"], dtype=float)
+                except Exception as e:  # noqa
+                    ck.fail_case({**sig_h, "routine": "isosteric_enthalpy", "clause": "routine raises after an in-place conversion", "error": type(e).__name__}, {"error": repr(e)[:300], **udet_h})
+                    continue
+                ck.count(("isosteric-inplace-mode" + tag_h, tuple(which), json.dumps(chain)), bucket="invariance after a history:isosteric_enthalpy:in-place mode conversions of used objects" + tag_h)
+                e = float(np.max(np.abs(got - base_h) / np.abs(base_h)))
+                note("isosteric_enthalpy:in-place modes", e)
+                if not (e <= 1e-4):
+                    ck.fail_case({**sig_h, "routine": "isosteric_enthalpy", "clause": "result changes with the representation of the isotherm", "history": "interpolated, converted in place (mode / loading unit), analysed again"},
+                                 {"converted": which, "conversions": chain, "before": base_h.tolist(), "after": got.tolist(), "relative_difference": e, **udet_h})
 
     # ------------------------------------------------------------------ correspondence of Model/Access.lean (what the theorems of Props/C15 part A and Props/C15/Interp
     # are about) with the real accessors on the COMPLETE pressure table: every stored representation x every requested one, for the column accessor `pressure()` (aP), the
@@ -744,29 +855,37 @@ def run(ck):
     from fractions import Fraction as Fr
     from pgv.core import close, err_class
     pg.Material("pgv_c15_mat", store=True, density=2.3, molar_mass=321.0)
-    w = c02.World(pg, "N2", "N2", "pgv_c15_mat", 77.355)
+    # worlds: the shipped N2 (constants from its backend) and the user-defined adsorbates whose constants are literals (context line of the model = the LITERALS, so the
+    # correspondence also says: the accessors of an isotherm of such an adsorbate use the stored saturation pressure in the unit the conversion needs)
+    worlds = [c02.World(pg, "N2", "N2", "pgv_c15_mat", 77.355)]
+    for k_, (nm_, T_) in UKINDS.items():
+        if nm_ in KNOWN:
+            w_ = c02.World(pg, nm_, nm_, "pgv_c15_mat", T_)
+            w_.props = c01.Props(nm_, w_.ads, w_.mat, T_, pg, known=KNOWN[nm_])
+            worlds.append(w_)
     PST = [("absolute", u) for u in c01.PA] + [("relative", None), ("relative%", None)]
     relgrid = [0.05, 0.15, 0.3, 0.5, 0.8]
     lines, plan = [], []
-    for S in PST:
-        fS = float(w.props.psat / w.props.scale_p(*S))
-        ps = [r * fS for r in relgrid]
-        lab = [S[0], S[1], "molar", "mmol", "mass", "g", "K"]
-        try:
-            ciso = c02.make_iso(pg, w, lab, ps, list(ps), w.temp, branch=[0] * len(ps))
-        except Exception as e:  # noqa
-            ck.fail_case({"routine": "constructor", "clause": "an isotherm in a supported representation is refused", "error": type(e).__name__}, {"labels": lab, "error": repr(e)[:200]})
-            continue
-        lines += [w.ctx_line(), " ".join(["lab"] + [tok(x) for x in lab])]
-        plan += [None, None]
-        for T in PST:
-            fT = float(w.props.scale_p(*S) / w.props.scale_p(*T))
-            v_in, y_st = ps[2] * fT * 1.07, ps[1] * 1.31
-            for op, val, thunk in (("aP", ps[2], lambda ciso=ciso, T=T: ciso.pressure(pressure_mode=T[0], pressure_unit=T[1])[2]),
-                                   ("iP", v_in, lambda ciso=ciso, T=T, v_in=v_in: ciso.loading_at(v_in, pressure_mode=T[0], pressure_unit=T[1])),
-                                   ("oPP", y_st, lambda ciso=ciso, T=T, y_st=y_st: ciso.pressure_at(y_st, pressure_mode=T[0], pressure_unit=T[1]))):
-                lines.append(" ".join([op, qstr(val), tok(T[0]), tok(T[1])]))
-                plan.append((op, S, T, val, thunk))
+    for w in worlds:
+        for S in PST:
+            fS = float(w.props.psat / w.props.scale_p(*S))
+            ps = [r * fS for r in relgrid]
+            lab = [S[0], S[1], "molar", "mmol", "mass", "g", "K"]
+            try:
+                ciso = c02.make_iso(pg, w, lab, ps, list(ps), w.temp, branch=[0] * len(ps))
+            except Exception as e:  # noqa
+                ck.fail_case({"routine": "constructor", "clause": "an isotherm in a supported representation is refused", "error": type(e).__name__}, {"labels": lab, "error": repr(e)[:200]})
+                continue
+            lines += [w.ctx_line(), " ".join(["lab"] + [tok(x) for x in lab])]
+            plan += [None, None]
+            for T in PST:
+                fT = float(w.props.scale_p(*S) / w.props.scale_p(*T))
+                v_in, y_st = ps[2] * fT * 1.07, ps[1] * 1.31
+                for op, val, thunk in (("aP", ps[2], lambda ciso=ciso, T=T: ciso.pressure(pressure_mode=T[0], pressure_unit=T[1])[2]),
+                                       ("iP", v_in, lambda ciso=ciso, T=T, v_in=v_in: ciso.loading_at(v_in, pressure_mode=T[0], pressure_unit=T[1])),
+                                       ("oPP", y_st, lambda ciso=ciso, T=T, y_st=y_st: ciso.pressure_at(y_st, pressure_mode=T[0], pressure_unit=T[1]))):
+                    lines.append(" ".join([op, qstr(val), tok(T[0]), tok(T[1])]))
+                    plan.append((op, S, T, val, thunk, w.name))
     try:
         replies = ck.drive("Access", lines)
     except Exception as e:  # noqa
@@ -776,18 +895,18 @@ def run(ck):
     for pl, rep_ in zip(plan, replies or []):
         if pl is None:
             continue
-        op, S, T, val, thunk = pl
+        op, S, T, val, thunk, wname = pl
         try:
             got = ("ok", float(thunk()))
         except Exception as e:  # noqa
             got = ("err", err_class(e))
         r = rep_.split()
-        ck.count(("corr", op, S, T), nontrivial=S != T, bucket="correspondence Model/Access:" + op)
+        ck.count(("corr", op, S, T, wname != "N2"), nontrivial=S != T, bucket="correspondence Model/Access:" + op + ("" if wname == "N2" else " [user-defined adsorbate]"))
         agree = (got[0] == "ok" and close(got[1], Fr(r[1]), rel=1e-9)) if r[0] == "ok" else (got[0] == "err" and c02.ERRMAP.get(r[1], r[1]) == got[1])
         if not agree:
             n_dis += 1
             if n_dis <= 3:
-                ck.broken.append({"step": "correspondence Model/Access.lean", "what": {"request": op, "stored": list(S), "requested": list(T), "value": val, "model": rep_[:80] if r[0] != "ok" else float(Fr(r[1])),
+                ck.broken.append({"step": "correspondence Model/Access.lean", "what": {"adsorbate": wname, "request": op, "stored": list(S), "requested": list(T), "value": val, "model": rep_[:80] if r[0] != "ok" else float(Fr(r[1])),
                                                                                       "implementation": [got[0], str(got[1])[:80]]}})
     ck.cov["correspondence_disagreements"] = n_dis
 
@@ -801,6 +920,10 @@ def run(ck):
                       "simple_bet / simple_lang in any representation; Henry constants in own units (5 x 3 units, and every final representation of a history over the complete molar and mass unit tables: "
                       "factor from the SI tables; a miss is attributed to the scale of the stored loading numbers by re-running the call on the same data x 10^m); psd_dft: fit inputs and fit outputs, "
                       "also under loading scale factors; "
-                      "isosteric enthalpy of three isotherms in common representations, in mixed representations (own history per isotherm), and converted in place after use")
+                      "isosteric enthalpy of three isotherms in common representations, in mixed representations (own history per isotherm), and converted in place after use; "
+                      "adsorbate kinds: shipped (backend) + user-defined without backend / with a backend that cannot answer at the temperature / own name on a working backend, literals random per seed, "
+                      "isotherms stored in absolute mode in any unit, in every oracle above (alpha-s self excepted: S15a); SI oracle of these adsorbates from the literals; "
+                      "Model/Access correspondence also with the literals as context")
     ck.assumptions += ["HK solver tolerance 2e-4 (numerical root finding)", "kernel fit outputs compared at 1e-6 (an exact non-negative least squares solution of the same inputs moves by < 2e-13 under re-expression of the units)", "CoolProp properties are inputs common to both sides",
-                       "alpha-s: representation invariance can be asserted only for a reference stored in relative mode (known finding S15a for the others)"]
+                       "alpha-s: representation invariance can be asserted only for a reference stored in relative mode (known finding S15a for the others)",
+                       "user-defined adsorbate on a backend: the molar mass is answered by the backend at any temperature, its literal is the backend fluid's molar mass (both sources agree)"]
